@@ -297,3 +297,24 @@ def sim_value(top, name):
 
 def dhash(s):
   return hashlib.sha1(s.encode()).hexdigest()[:10]
+
+def replay_sources(ctx, r, expect_key=None):
+  """re-elaborate every design source stored in a replay file (40 times each, shifting the allocator) and print the
+  distribution of outcomes; returns the set of outcome classes seen per source"""
+  import re
+  setup_impl_path()
+  rp = r.get('replay', {})
+  seen = {}
+  junk = []
+  for k, src in rp.items():
+    if not (isinstance(src, str) and 'construct' in src and 'class Top_' in src): continue
+    clsname = re.findall(r'class (Top_\w+)\(', src)[-1]
+    outs = {}
+    for i in range(40):
+      junk.append([object() for _ in range(i % 13)])
+      res = elaborate_src(ctx.scratch, src, clsname)
+      o = 'accepted' if res[0] == 'ok' else res[1]
+      outs[o] = outs.get(o, 0) + 1
+    seen[k] = outs
+    print(f'replay {k}: outcomes over 40 elaborations: {outs}')
+  return seen
